@@ -26,7 +26,7 @@ reg("C19",
            "ts variable, plain TS[T]) resolved with a caller-requested output bundle (exact, wider, narrower, swapped, renamed, nominal, conflicting with the input binding, none) "
            "(output_ts_pattern_match / ts_pattern_match)",
     outside="make_operator_impl / register_overload<Op,Impl> / wire<Op> (template front door, not compilable with clang 14); requires predicates and default resolvers; keyword arguments, "
-            "non-empty **kwargs packs and variadic tails; caller-requested output types other than the bundles of pool group 4, size hints and initial resolutions; numeric scalar coercion and bundle-inheritance adaptation ranks; "
+            "non-empty **kwargs packs; variadic tails, the requested output TS<int> and the initial resolution {T:int} are in pool group 5 only (harness C19_variadic); other caller-requested output types than the bundles of pool group 4, size hints; numeric scalar coercion and bundle-inheritance adaptation ranks; "
             "Python candidates; families larger than FAMMAX; arity 3+; the rank formula itself is only constrained through the orderings the developer guide states",
     assumptions=["candidates are built by hand with the public non-template factories and rank = operator_dispatch_detail::operator_rank(params), exactly as make_operator_impl and the Python bridge compute it",
                  "'matches' is defined by an independent reference unifier in the harness (REF transparency and SIGNAL as documented in type_pattern.h); promotion of a plain value to a const "
@@ -48,6 +48,40 @@ reg("C19",
            "(quick: 8 one-argument x 5 schemas and 8 two-argument x 4 tuples; thorough: 12 x 9 and 10 x 10); numeric pattern parameters symbolic in [0,SZMAX]",
     outside="as C19_resolve; families larger than 4",
     assumptions=["as C19_resolve"],
+    )
+
+reg("C19",
+    name="C19_variadic", src="harness/C19_resolve.cpp",
+    anchor_files=["src/hgraph/types/operator_dispatch.cpp", "include/hgraph/types/operator_dispatch.h", "src/hgraph/types/type_pattern.cpp",
+                  "include/hgraph/types/type_pattern.h", "include/hgraph/types/type_resolution.h", "include/hgraph/types/wiring_observer.h"],
+    needs_tus=["src/hgraph/types/operator_dispatch.cpp", "src/hgraph/types/type_pattern.cpp"],
+    quick=dict(defs=dict(FAMMIN=1, FAMMAX=3, ARITIES=16, POOL5="0x7f7", ARGS5="0x3fffff", SZMAX=4),
+               symx=dict(shards=16, **{"max-wall": 900})),
+    thorough=dict(defs=dict(FAMMIN=1, FAMMAX=4, ARITIES=16, POOL5="0x1fff", ARGS5="0x3fffff", SZMAX=6),
+                  symx=dict(shards=16, **{"max-wall": 3000})),
+    reach=["end", "winner", "variadic_winner", "no_match_error", "ambiguity_error", "single_match", "single_reject", "winner_among_several_matching_3_orders",
+           "variadic_empty_tail_match", "variadic_shared_variable_tail_agrees_match", "variadic_tail_agrees_with_output_or_initial_binding_match",
+           "variadic_tail_disagrees_with_prefix_binding_rejected", "variadic_later_tail_argument_disagrees_rejected",
+           "variadic_tail_disagrees_with_requested_output_rejected", "variadic_tail_disagrees_with_initial_resolution_rejected",
+           "variadic_tail_disagrees_with_size_variable_rejected", "variadic_inconsistent_call_fallback_wins", "variadic_inconsistent_call_alone_no_match",
+           "variadic_inconsistent_call_family_no_match", "variadic_and_fixed_arity_both_match", "variadic_two_prefix_arities_both_match",
+           "variadic_tail_only_variable_readings_differ", "size_var_bound"],
+    bounds="pool group 5 of harness C19_resolve: every family of FAMMIN..FAMMAX (quick 1..3, thorough 1..4) out of the POOL5 mask (quick: 10 candidates - without any(TS[T],*V), homogint, "
+           "the three-argument fixed-arity one; thorough: all 13) of hand-built candidates, 11 of them with OperatorImpl::variadic "
+           "(last parameter = variadic tail, rank = operator_rank(params, true) as make_operator_graph_impl): homog(TS[T],*TS[T]), indep(TS[T],*TS[U]), conc(TS[T],*TS[float]), "
+           "any(TS[T],*V), (*TS[T])->TS<int>, (*TS[T])->TS[T] (T bindable only by the tail / a requested output / the initial resolution), two(TS[T],TS[U],*TS[U]), (V,*V), "
+           "sized(TSL[TS[T],N],*TSL[TS[T],N]), symtail(TS[T],*TSL[TS[T],F]) with F symbolic in [0,SZMAX] (0 = any size; symbolic per-argument tail rank), homogint(TS[int],*TS[int]), "
+           "plus fixed-arity (TS[T],TS[T]) and (TS[T],TS[T],TS[T]); x 22 calls of 1..4 arguments: empty tail, tail agreeing / disagreeing with the prefix binding in the first, "
+           "second or third tail argument, tail homogeneous in itself but not with the prefix, fully heterogeneous tail, caller-requested output TS<int> and initial_resolution {T:int} "
+           "with agreeing / disagreeing tail and prefix, TSL tails agreeing / disagreeing in element type and size variable, a REF source and a plain value in the tail; "
+           "x ALL registration orders of the family (fresh operator name each) plus every member alone",
+    outside="as C19_resolve; VarIn / make_operator_graph_impl front door (template, clang 14), packed tails (WiringArg::from_variadic_tail: a structural TSL expanded by normalize_call) "
+            "and their fixed-input penalty; keyword-only parameters after the tail (positional_params), named arguments; ts-variable or size-variable initial resolutions and size hints; "
+            "scalar (non time-series) tail patterns; tails longer than 3 arguments",
+    assumptions=["as C19_resolve; the reference unifier threads ONE binding through requested output, initial resolution, fixed prefix and every tail argument (the statement's "
+                 "'every type variable bound to one type across all positions'); where that differs from matching each tail argument on its own copy of the earlier bindings "
+                 "(only for a variable nothing but the tail can bind) the demand is asserted under its own id C19.variadic_tail_variable_one_type",
+                 "a plain value in a tail position (const promotion) is unspecified for completeness, as in C19_resolve"],
     )
 
 META = dict(
